@@ -77,7 +77,7 @@ class D(Driver):
             return
         rules = sorted({r for r, _ in errs})
         mech = None
-        if group_rules_only(errs) and stagemon.LAST["before"] is not None:
+        if group_rules_only(errs) and stagemon.LAST["before"] is not None and not stagemon.LAST.get("stroke_junk"):
             # known ordering mechanism: the groups were fine until unpainted shapes were pruned
             before_errs = [e for e in PGm.validate(stagemon.LAST["before"], 9, True) if e[0].startswith("group")]
             if not before_errs:
